@@ -137,7 +137,41 @@ var corpus = []func(o *hx.Out, k int){
 		h.drop(2, B("5601=cc", "3401=del"))
 		h.block(2, B("1201=dd"))
 	},
-	// 7, 8: state-sync restore of a trie with the same sub-trie at two paths, flushed to a copying
+	// 7: AddMPTBatch, a persist tick of the node, and the block is never committed
+	// (seed C11-m4): nothing of the block may reach the persistent store; then the chain goes on
+	func(o *hx.Out, k int) {
+		m := newModMOn("gc", "copy")
+		defer m.Close()
+		m.tick = true
+		h := newHist(o, k, "gc", m)
+		h.probes = probes("1201", "3401", "5601", "1202")
+		h.block(0, B("1201=aa", "1202=aa", "3401=bb"))
+		h.block(1, B("1202=del", "7801=aa"))
+		h.drop(2, B("1201=del", "5601=cc", "3401=dd"))
+		h.block(2, B("1202=aa"))
+		if !h.dead {
+			h.gcl(1)
+			h.block(3, B("1201=del"))
+		}
+	},
+	// 8: the collection on the persistent store while the upper layer holds the newer
+	// blocks (MemCachedStore layering): index below, then inside the range of the waiting records
+	func(o *hx.Out, k int) {
+		h := newHist(o, k, "gc", newModM("gc"))
+		h.probes = probes("1201", "1202", "1301", "77")
+		h.block(0, B("1201=aa", "1202=bb", "1301=cc"))
+		h.block(1, B("1202=del"))
+		h.persist()
+		h.block(2, B("1301=del"))
+		h.block(3, B("1202=bb", "1301=cc"))
+		h.gcl(1) // what a node does: the index is not above the persisted height
+		h.block(4, B("1201=del"))
+		h.gcl(4) // the records deactivated at 2..4 wait in the upper layer and survive
+		h.persist()
+		h.gcl(4)
+		h.checkRetained(h.m.View(), true)
+	},
+	// 9, 10: state-sync restore of a trie with the same sub-trie at two paths, flushed to a copying
 	// persistent layer before every restoration; then copies are removed and everything is read
 	func(o *hx.Out, k int) { corpusRestore(o, k, "copy") },
 	func(o *hx.Out, k int) { corpusRestore(o, k, "bolt") },
